@@ -3,7 +3,7 @@ import math
 import random
 from fractions import Fraction as F
 
-from harness.fieldp import red, P
+from harness.fieldp import red, P, Unrepresentable
 
 
 def _imp():
@@ -100,10 +100,17 @@ def mv_traces(rng, ntraces, length):
             norm = m.get_normalized()
             exact_zero = sum(got.values()) == 0
             red_zero = sum(red(v) for v in got.values()) % P == 0
+            try:
+                norm_red = [[repr(k), red(v)] for k, v in norm.items()]
+            except Unrepresentable:
+                # the sum of the values is divisible by P although it is not zero: the normalised view cannot be
+                # represented in GF(P); the clause is skipped (and counted), never failed
+                norm_red = [[repr(k), 0] for k in norm]
+                red_zero = not exact_zero
             e = {"upd": [[repr(k), red(v)] for k, v in upd.items()], "pre": pre, "pren": pren,
                  "post": mv_proj(m), "postn": int(m.N),
                  "get": [[repr(k), red(v)] for k, v in got.items()],
-                 "norm": [[repr(k), red(v)] for k, v in norm.items()],
+                 "norm": norm_red,
                  "normok": exact_zero == red_zero}
             ev.append(e)
         out.append({"type": "mv", "kind": kind, "alpha": red(alpha), "ev": ev,
